@@ -155,6 +155,16 @@ Theorem C09_scion_model_meets_oracle : forall cp lp src h payload e,
 Proof. exact model_meets_oracle_scion. Qed.
 Print Assumptions C09_scion_model_meets_oracle.
 
+(* every packet a SCION listener socket receives, addressed to it or not: no reply at all to
+   a packet for another port or with an unreadable host address (relayed, at most, under the
+   dispatcher rule) *)
+Theorem C09_scion_any_packet_meets_oracle : forall cp lp src h payload e,
+  bytes_ok payload -> env_ok payload e -> e_spao_fail e = false ->
+  C09_scion_any_ok src cp lp h payload (e_nts_ok e) (e_path_rev e)
+    (scion_replies src (scion_decision_of cp lp h payload e)) = true.
+Proof. exact model_meets_oracle_scion_any. Qed.
+Print Assumptions C09_scion_any_packet_meets_oracle.
+
 (* ---- the same for whole histories: every exchange of every history passes the oracle,
         whatever the listener handled before it (the oracle of the "ip" case kind is
         C09_hist_ok over the probe and sentinel exchanges of all steps) ---- *)
